@@ -363,7 +363,9 @@ class Scenario:
         finally:
             self.react = 0
         if exc is not None:
-            raise MachineryError('receive callback raised %r' % exc)
+            # an exception out of the application's receive path is the library's doing, not the harness's:
+            # it is noted, and the projection after the step says what it meant for C18
+            self.sess.loop.errors.append({'exception': exc, 'message': 'escaped from the receive callback'})
         if self.published and not self.quiet:
             # as in publish(): whatever is due now was scheduled by the publication itself
             self.sess.loop.settle(timers_now=True)
@@ -374,7 +376,9 @@ class Scenario:
         self.react, self.published = 0, False
         exc = deliver(self.sess, self.face, wire, timers_now=False)
         if exc is not None:
-            raise MachineryError('receive callback raised %r' % exc)
+            # an exception out of the application's receive path is the library's doing, not the harness's:
+            # it is noted, and the projection after the step says what it meant for C18
+            self.sess.loop.errors.append({'exception': exc, 'message': 'escaped from the receive callback'})
         return self.post()
 
     def publish(self, n=1, j=0):
